@@ -1,0 +1,24 @@
+//go:build verif
+
+package hashprefix
+
+import "github.com/AdguardTeam/AdGuardDNS/internal/dnsmsg"
+
+// VerifC11HashableSubdomains exposes hashableSubdomains to the verification
+// harness.
+func VerifC11HashableSubdomains(domain string) (sub []string) {
+	return hashableSubdomains(domain)
+}
+
+// VerifC11PrefixesFromStr exposes prefixesFromStr to the verification harness.
+func VerifC11PrefixesFromStr(s string) (prefs []Prefix, err error) {
+	return prefixesFromStr(s)
+}
+
+// VerifC11IsFilterable exposes the ok result of isFilterable to the
+// verification harness.
+func VerifC11IsFilterable(qt dnsmsg.RRType) (ok bool) {
+	_, ok = isFilterable(qt)
+
+	return ok
+}
